@@ -61,8 +61,15 @@ package compat
 // reported exactly when the chain is longer than the limit.
 //@ extern pure utf8.ValidString
 //@ extern pure strings.ToValidUTF8
+// trusted facts about the two standard-library functions (uninterpreted otherwise): the result of ToValidUTF8 is
+// valid, and a valid string is returned unchanged
+//@ axiom @to_valid_is_valid: forall s string, r string :: { strings.ToValidUTF8(s, r) } utf8.ValidString(r) ==> utf8.ValidString(strings.ToValidUTF8(s, r))
 //@ contract repairInvalidUTF8InFailure
 //@   props C17 C18
+// every failure the walk leaves behind has a valid message (a message is skipped only when it already is valid),
+// and what is written is exactly the standard repair of what was there
+//@   callpre GetCause: @left_valid: utf8.ValidString(failure.Message)
+//@   writepre Message: @standard_repair: $value == strings.ToValidUTF8(failure.Message, replacementCharacter)
 //@   assigns all(failure122.Failure.Message)
 //@   callpre Errorf: @only_when_too_deep: failure != nil && count == maxFailureDepth
 //@   loop 1 invariant 0 <= count && count <= maxFailureDepth
